@@ -127,6 +127,17 @@ func child(a []string) int {
 		c := &core.Ctx{Prop: p.ID(), Tier: tier, Seed: seed, Idx: i, R: core.NewRand(core.SubSeed(seed, p.ID(), i)), Res: res}
 		res.Evaluations++
 		runCase(p, c)
+		// the check has failed already: a few witnesses are enough, the rest of the chunk is not run
+		unknown := 0
+		for _, v := range res.Violations {
+			if v.Known == "" {
+				unknown++
+			}
+		}
+		if unknown >= 3 {
+			res.Events["chunks-stopped-after-3-violations"]++
+			break
+		}
 	}
 	if f, ok := p.(core.Flusher); ok && to > from {
 		c := &core.Ctx{Prop: p.ID(), Tier: tier, Seed: seed, Idx: to - 1, R: core.NewRand(core.SubSeed(seed, p.ID()+"/flush", from)), Res: res}
